@@ -73,7 +73,12 @@ def load_config_toml(
             f.write(_comment_out_toml(default_config))
         config_toml = dict()
 
-    config = _merge(default_config_toml, config_toml)
+    # Merge plain dicts: replacing a value by a table (or the reverse) in place
+    # inside a tomlkit document corrupts it (lost keys, IndexError)
+    config = _merge(
+        default_config_toml.unwrap(),
+        config_toml.unwrap() if hasattr(config_toml, "unwrap") else config_toml,
+    )
 
     return config
 
